@@ -28,7 +28,7 @@ RULE = (
 )
 ASSUMPTIONS = [
     "|H| bound = sum_i (|Omega_i|/2 + |delta_i|) + sum_{i<j} |U_ij| from the sequence parameters (no dense matrix)",
-    "energy drift allowed: emu-sv 50 n_steps tol |H|; emu-mps n_steps N 20 precision |H| + 2e-6 |H| (two-site TDVP conserves energy up to truncation)",
+    "energy drift allowed inside a constant window: emu-sv 10 tol |H|, emu-mps 0.1 precision |H| (second moment: times |H| again) - 20-50x the largest drift measured on the unchanged tree (0.21 tol |H| resp. 5e-3 precision |H|^2)",
     "emu-mps reports explicitly normalised states: norm tolerance 1e-9 whatever the truncation",
     "when max_bond_dim binds only the norm statement is required",
 ]
@@ -36,15 +36,15 @@ CHUNK = 1
 
 
 def _regs(tier):
-    r = {"pair": kit.chain(2), "chain3": kit.chain(3), "chain5": kit.chain(5), "ladder8": kit.ladder(8)}
+    r = {"pair": kit.chain(2), "chain3": kit.chain(3), "chain5": kit.chain(5), "ladder8": kit.ladder(8), "weak6": kit.chain(6, 11.0), "weak8": kit.chain(8, 11.0), "weak6b": kit.chain(6, 9.0)}
     if tier == "thorough":
-        r.update({"chain12": kit.chain(12), "ladder16": kit.ladder(16), "chain20": kit.chain(20)})
+        r.update({"chain12": kit.chain(12), "ladder16": kit.ladder(16), "chain20": kit.chain(20), "weak12": kit.chain(12, 11.0)})
     return r
 
 
 def bounds(tier, seed):
     return {
-        "registers": list(_regs(tier)),
+        "registers": list(_regs(tier)) + ["weak*: chains at 11 / 9 um with max_bond_dim 2 and 3 (the state fits, H|psi> does not)"],
         "windows": ["one: Omega 5, delta 2, 120 ns", "two: (5, 2) 60 ns then (3, -4) 60 ns"],
         "dmm": [False, True],
         "dt": [10, 4],
@@ -58,6 +58,12 @@ def cases(tier, seed):
         yield {"backend": "mps", "reg": "ladder16", "win": "one", "dmm": False, "dt": 10, "precision": 1e-5, "cap": None, "second_moment_large": True}
     for reg, coords in _regs(tier).items():
         n = len(coords)
+        if reg.startswith("weak"):
+            # weakly interacting chain with a bond cap of 2 (3): the state itself fits (measured drift of <H^2> <= 1.8e-5 relative), H|psi> does not
+            for win in ("one", "two"):
+                for cap in (2, 3):
+                    yield {"backend": "mps", "reg": reg, "win": win, "dmm": False, "dt": 10, "precision": 1e-5, "cap": cap, "weakcap": True}
+            continue
         for win, dmm, dt in itertools.product(("one", "two"), (False, True), (10, 4)):
             if n <= 12:
                 for tol in (1e-10, 1e-6):
@@ -128,11 +134,11 @@ def run_case(case):
     nsteps = len(grid) - 1
     if mod is sv:
         tol_norm = nsteps * 10 * case["tol"] + 1e-10
-        tol_e = 50 * nsteps * case["tol"] * Hb + 1e-9 * Hb
+        tol_e = 10 * case["tol"] * Hb + 1e-10 * Hb  # measured on the unchanged tree: <= 0.21 tol |H|
     else:
         tol_norm = 1e-9  # emu-mps reports the state explicitly normalised, whatever the truncation discarded
-        tol_e = nsteps * n * 20 * case["precision"] * Hb + 2e-6 * Hb
-    capped = (case.get("cap") is not None and case["cap"] < 2 ** (n // 2)) or case.get("precision") == 1e-2
+        tol_e = 0.1 * case["precision"] * Hb + 1e-9 * Hb  # measured on the unchanged tree: <= 5e-3 precision |H| (energy), 5e-3 precision |H|^2 (second moment)
+    capped = (case.get("cap") is not None and case["cap"] < 2 ** (n // 2) and not case.get("weakcap")) or case.get("precision") == 1e-2
     if with_state:
         for t in ev:
             st = runner.get_at(res, "state", t)
@@ -145,7 +151,12 @@ def run_case(case):
             for tag, scale in (("energy", 1.0),) + ((("energy_second_moment", Hb),) if want_m2 else ()):
                 vals = np.array([float(np.real(runner.to_np(runner.get_at(res, tag, t)))) for t in sorted(ks)])
                 drift = float(vals.max() - vals.min())
-                if drift > tol_e * scale:
-                    return result(False, sig=f"{tag}|{case['backend']}|{case['win']}", msg=f"{label}: {tag} varies by {drift:.3e} inside the constant window ({a}, {b}] ns (allowed {tol_e * scale:.1e}); values {np.round(vals, 6).tolist()[:8]}...", outcome="drift")
+                allowed = tol_e * scale
+                if case.get("weakcap") and tag == "energy_second_moment":
+                    allowed = 2e-4 * float(np.abs(vals).max())  # class bound: 10x the largest relative drift measured on the unchanged tree (1.8e-5)
+                if case.get("weakcap") and tag == "energy":
+                    allowed = 1e-6 * Hb
+                if drift > allowed:
+                    return result(False, sig=f"{tag}|{case['backend']}|{case['win']}", msg=f"{label}: {tag} varies by {drift:.3e} inside the constant window ({a}, {b}] ns (allowed {allowed:.1e}); values {np.round(vals, 6).tolist()[:8]}...", outcome="drift")
     occ = runner.to_np(runner.get_at(res, "occupation", 1.0)).astype(float)
     return result(True, outcome=["ok", rnd(occ, 3)], nontrivial=bool(occ.max() > 1e-3))
